@@ -60,7 +60,7 @@ def judge(ctx, r, reply, case, site, opts, conc):
     ref = cc.RefCrawl(site, opts)
     start = 'http://%s%s' % (cc.HOST, site.start)
     nreq = len(r['requests'])
-    tags = ['conc=%d' % conc, 'level=%s' % opts['level'], 'requests=%s' % ('0-1' if nreq < 2 else '2-5' if nreq < 6 else '6+')]
+    tags = ['conc=%d' % conc, 'level=%s' % opts['level'], 'no_parent=%s' % opts.get('no_parent'), 'requests=%s' % ('0-1' if nreq < 2 else '2-5' if nreq < 6 else '6+')]
     if any(p['kind'] == 'redirect' for p in site.pages.values()):
         tags.append('has-redirect')
     ctx.case(json.dumps(case, sort_keys=True), nontrivial=nreq >= 2, tags=tags)
@@ -139,8 +139,8 @@ def load_corpus(ctx):
 def gen_cases(rng, n):
     cases = []
     for i in range(n):
-        site = cc.gen_site(rng)
         opts = cc.gen_options(rng)
+        site = cc.gen_site(rng, start_deep=opts['no_parent'])
         conc = rng.choice([1, 1, 2, 3, 4])
         cases.append((site, opts, conc, rng.randrange(1 << 30)))
     return cases
